@@ -52,3 +52,46 @@ Theorem C19_groups_nonempty : forall P prs skip fuel s, Forall (fun g => g <> []
   Forall (fun g => g <> []) (d_groups (snd (next_data_loop P prs skip fuel s))).
 Proof. exact groups_nonempty. Qed.
 Print Assumptions C19_groups_nonempty.
+
+(* ---- packetBuffer.next IS the source ----
+   Gen/DemuxGen.v (Section PacketBuffer) is translated from the current /repo/packet_buffer.go on every run
+   (go/gen/demuxgen.go).  packet_buffer_next, through which every theorem above sees packetBuffer.next, is the
+   regenerated function with io.ReadFull and parsePacket instantiated by the model's read_full and parse_packet
+   (Proofs/DemuxGenEq.v): same packet or error class (ErrNoMorePackets recognisable with ==, as NextPacket needs), same
+   reader afterwards, same packets handed to the skipper, the read buffer kept at the packet size; Panicked exactly for
+   a negative packet size.  The reader's own failure is EExt wr for an arbitrary wr (it may wrap io.EOF): replacing
+   `err == io.EOF` by errors.Is, bounding the packets skipped in a row, or changing which errors are wrapped breaks
+   this proof.  Fuel S (packets_left r size) suffices.  Hypotheses: the reader's bookkeeping is consistent (true of
+   every reader the model builds and keeps), and parse_packet never answers with the "no more packets" code
+   (C03_packet_no_panic: its errors are generic / sync / skipped). *)
+Require Import Gen.DemuxGen Proofs.DemuxGenEq Proofs.DemuxGenEqBuf.
+
+Theorem C19_next_is_source : forall (err_of : Z -> gerr),
+  (forall c, code_x (err_of c) = norm c) -> (forall c, gerr_is (err_of c) e_skipped = (c =? E_skipped)) ->
+  forall (wr : gerr) skip, (forall bs c, run_iter (parse_packet skip) bs = Err c -> c <> E_nomore) ->
+  forall size r pm g cons kd buf, size <> 0 -> rest_len r ->
+  match packetBuffer_next mworld rkind (read_full_m wr) (parse_packet_m err_of) size (Some (embed_skip skip)) kd buf
+          (S (packets_left r size)) (mk_mworld r pm g cons) with
+  | Done (buf', p, err, w') =>
+      res_rel_exact p err (fst (fst (packet_buffer_next skip (mk_pbuf size) r))) /\
+      w' = mk_mworld (snd (fst (packet_buffer_next skip (mk_pbuf size) r))) pm g
+                     (cons ++ snd (packet_buffer_next skip (mk_pbuf size) r)) /\
+      Z.of_nat (length buf') = size
+  | Panicked => fst (fst (packet_buffer_next skip (mk_pbuf size) r)) = Panic
+  | OutOfFuel => False
+  end.
+Proof. exact pb_next_is_generated. Qed.
+Print Assumptions C19_next_is_source.
+
+(* the three hypotheses on the representation of errors are satisfiable *)
+Theorem C19_errors_representable :
+  (forall c, gerr_eqb (err_of_plain ENew c) e_nomore = (c =? E_nomore)) /\
+  (forall c, code_x (err_of_plain ENew c) = norm c) /\
+  (forall c, gerr_is (err_of_plain ENew c) e_skipped = (c =? E_skipped)).
+Proof.
+  split; [apply err_of_plain_ok|split; [apply err_of_plain_ok|]].
+  intros c. unfold err_of_plain, E_nomore, E_injected, E_sync, E_skipped.
+  destruct (Z.eqb_spec c 1); [subst; reflexivity|]. destruct (Z.eqb_spec c 7); [subst; reflexivity|].
+  destruct (Z.eqb_spec c 2); [subst; reflexivity|]. destruct (Z.eqb_spec c 3); [subst; reflexivity|]. reflexivity.
+Qed.
+Print Assumptions C19_errors_representable.
